@@ -650,6 +650,10 @@ func (ex *Exec) evalModTarget(ctx *SpecCtx, c *Clause) []*modTarget {
 	case *ast.StarExpr:
 		base := ctx.eval(x.X)
 		pt := ex.env.resolve(base.T).Underlying().(*types.Pointer)
+		if l := base.V.Loc; l != nil && l.Kind == LHeap && l.PathS != "" {
+			// an interior pointer (&obj.f handed to the callee): the target is that field of the object
+			return []*modTarget{{kind: "field", base: l.Base, path: l.PathS, typ: pt.Elem(), ref: l.Ref, src: c.Src}}
+		}
 		return []*modTarget{{kind: "field", base: ex.env.resolve(pt.Elem()), path: "", typ: pt.Elem(), ref: ex.valTerm(base.V), src: c.Src}}
 	case *ast.Ident:
 		if gg := ctx.findGhostGlobal(x.Name); gg != nil {
